@@ -923,7 +923,9 @@ func Merge[T any](in ...Stream[T]) Stream[T] {
 			}
 		}()
 	}
-	return receiver
+	// Closing the merged stream also cancels ctx, so that goroutines waiting on a slow input do
+	// not linger until that input happens to produce something.
+	return &mergeStream[T]{inner: receiver, cancel: cancel}
 }
 
 type mergeStream[T any] struct {
